@@ -5,6 +5,7 @@
    Statements only; proofs are in Proofs/BddProofs.v. *)
 From Coq Require Import List NArith Arith Bool Permutation.
 From V Require Proofs.ExprsTie2.   (* expressions of cube.rs / ecube.rs / bdd.rs / canonization.rs, regenerated from the Rust source, equal the model's *)
+From V Require Import Checkers.Check Proofs.CheckSoundDecomp.   (* the extracted checkers and their soundness proofs, pinned at the end of this file *)
 From V Require Import Base.Res Model.Kernels Model.Bdd Model.Api Spec.Bfun Spec.BddSpec Proofs.BddProofs.
 Import ListNotations.
 Open Scope N_scope.
@@ -345,3 +346,40 @@ Print Assumptions C07_build_level.
 Print Assumptions C07_build_model.
 Print Assumptions C07_build_api_D.
 Print Assumptions C07_build_api_S.
+
+
+(* ---- soundness of the extracted checkers that decide this property's statement on the implementation's results *)
+Theorem C07_checker_bdd_iff : forall n ts count,
+  chk_bdd n ts count = true <-> count = bdd_nodes n ts.
+Proof. exact CheckSoundDecomp.chk_bdd_iff. Qed.
+
+Theorem C07_checker_bdd_sound : forall n ts count,
+  Forall (wf n) ts ->
+  (chk_bdd n ts count = true <-> table_complexity n (concat ts) = Ok count).
+Proof. exact CheckSoundDecomp.chk_bdd_sound. Qed.
+
+Theorem C07_checker_bdd_model : forall n ts,
+  Forall (wf n) ts ->
+  exists count, table_complexity n (concat ts) = Ok count /\ chk_bdd n ts count = true.
+Proof. exact CheckSoundDecomp.chk_bdd_model. Qed.
+
+Theorem C07_checker_bdd_sound_D : forall l0 luts count,
+  Forall (fun l => nv l = nv l0 /\ wf (nv l) (tbl l)) (l0 :: luts) ->
+  (chk_bdd (nv l0) (map tbl (l0 :: luts)) count = true <-> D_bdd_complexity (l0 :: luts) = Ok count).
+Proof. exact CheckSoundDecomp.chk_bdd_sound_D. Qed.
+
+Theorem C07_checker_bdd_sound_D_empty : forall n count,
+  chk_bdd n [] count = true <-> D_bdd_complexity [] = Ok count.
+Proof. exact CheckSoundDecomp.chk_bdd_sound_D_empty. Qed.
+
+Theorem C07_checker_bdd_sound_S : forall n luts count,
+  Forall (fun l => wf n (tbl l)) luts ->
+  (chk_bdd n (map tbl luts) count = true <-> S_bdd_complexity n luts = Ok count).
+Proof. exact CheckSoundDecomp.chk_bdd_sound_S. Qed.
+
+Print Assumptions C07_checker_bdd_iff.
+Print Assumptions C07_checker_bdd_sound.
+Print Assumptions C07_checker_bdd_model.
+Print Assumptions C07_checker_bdd_sound_D.
+Print Assumptions C07_checker_bdd_sound_D_empty.
+Print Assumptions C07_checker_bdd_sound_S.
